@@ -268,8 +268,8 @@ func TestC19_StoreLinearizable(t *testing.T) {
 		go func() { wg.Wait(); close(done) }()
 		select {
 		case <-done:
-		case <-time.After(30 * time.Second):
-			h.Violate(rt, "C19/store-deadlock", "store operations did not finish within 30 s: %v", lists)
+		case <-time.After(90 * time.Second):
+			h.Violate(rt, "C19/store-deadlock", "store operations did not finish within 90 s: %v", lists)
 			return
 		}
 		if len(panics) > 0 {
